@@ -63,6 +63,14 @@ def main():
             ncomp = rnd.randint(1, 4)
             scale = rnd.choice([20, 150, 600, 1500, 4000])
             text, sysmass, marks, fr = sysrun.build_system(rnd, ncomp, scale)
+            if rnd.random() < 0.25:
+                # one component that is not generable: a stochastic object without distribution (the mass specification stays determined)
+                import re
+                spots = [m for m in re.finditer(r"\}\|[a-z_]+\([^)|]*\)\|", text)]
+                if spots:
+                    m = rnd.choice(spots)
+                    text = text[:m.start()] + "}" + text[m.end():]
+                    ck.count("systems-with-a-non-generable-component")
             system = sysrun.parse_system(text, sysmass)
         if system is None:
             continue
@@ -84,8 +92,10 @@ def main():
                 M = float(system.system_mass)
             except Exception:
                 M = None
+        estim = bool(system._generable)
+        comp_gen = [bool(m.generable) for m in system._molecules]
         rec = dict(text=text, sysmass=sysmass, marks=marks, fr=fr, system=system, generable=generable, single=single, infos=infos,
-                   error=error, log=log, M=M)
+                   error=error, log=log, M=M, estim=estim, comp_gen=comp_gen)
         recs.append(rec)
         # ties: where the implementation's accumulated (binary64) mass hits the system mass within 1e-9, the exact-rational model is
         # steered along the implementation's own decision (DESIGN.md 5.4); the oracle below decides such cases on the floats
@@ -99,7 +109,7 @@ def main():
                     Mm = M * (1 - 1e-6) if stopped else M * (1 + 1e-6)
                     ck.count("ties_followed_along_impl_branch")
         ops.append({"op": "SYSGEN", "comps": comps, "ev": events_json(log), "fuel": 100000, "single": single,
-                    "M": frac(Mm), "generable": generable})
+                    "M": frac(Mm), "estim": estim})
     outs = ck.driver.run(ops)
     for rec, out in zip(recs, outs):
         inp = {"text": rec["text"], "system_mass": rec["sysmass"], "single": rec["single"], "history": genrun.history(rec["log"])[:60]}
@@ -109,6 +119,14 @@ def main():
         ck.count("components:%d" % len(rec["marks"]))
         ck.count("members", len(infos))
         # ---------------- oracle on the implementation
+        should = rec["estim"] and all(rec["comp_gen"])
+        if not should and not rec["single"]:
+            if rec["generable"]:
+                ck.fail("non-generable-system-reports-generable", inp, f"components generable: {rec['comp_gen']}, mass estimate ok: {rec['estim']}, yet System.generable is True")
+            if infos:
+                ck.fail("non-generable-system-generates", inp, f"{len(infos)} molecules were yielded although components generable = {rec['comp_gen']}")
+        if not rec["single"] and "gen" in out and out["gen"] != rec["generable"]:
+            ck.mismatch("SYSGEN.generable", inp, rec["generable"], out["gen"])
         if rec["error"] is None:
             if not rec["single"]:
                 if not rec["generable"]:
